@@ -1,7 +1,7 @@
 """Run every seeded change against the check of the property it targets and write seeded/<id>/meta.json."""
 import json, os, re, subprocess, sys, time
 V = os.path.dirname(os.path.dirname(os.path.abspath(__file__)))
-extra = {"C07_A": ["C09"], "C03_A": ["C09"], "C03_B": ["C02"], "C08_C": ["C09"], "C12_C": ["C08"], "C12_D": ["C07"], "C07_C": ["C12"], "C05_C": ["C01"], "C01_D": ["C05"], "C09_H": ["C07"], "C16_G": ["C17"], "C04_H": ["C03"], "C06_H": ["C03"], "C07_J": ["C08", "C12"], "C08_J": ["C17", "C16"], "C07_L": ["C13"], "C11_K": ["C16"], "C13_K": ["C16"], "C15_K": ["C16"], "C15_L": ["C13", "C16"], "C09_L": ["C07"]}
+extra = {"C07_A": ["C09"], "C03_A": ["C09"], "C03_B": ["C02"], "C08_C": ["C09"], "C12_C": ["C08"], "C12_D": ["C07"], "C07_C": ["C12"], "C05_C": ["C01"], "C01_D": ["C05"], "C09_H": ["C07"], "C16_G": ["C17"], "C04_H": ["C03"], "C06_H": ["C03"], "C07_J": ["C08", "C12"], "C08_J": ["C17", "C16"], "C07_L": ["C13"], "C11_K": ["C16"], "C13_K": ["C16"], "C15_K": ["C16"], "C15_L": ["C13", "C16"], "C09_L": ["C07"], "C12_L": ["C01"]}
 only = sys.argv[1:]
 for d in sorted(os.listdir(os.path.join(V, "seeded"))):
     if only and d not in only:
